@@ -4,6 +4,7 @@ import FtdcVerif.Lemmas.StreamE2E
 import FtdcVerif.Lemmas.SDynE2E
 import FtdcVerif.Lemmas.FileE2E
 import FtdcVerif.Lemmas.PayloadTie
+import FtdcVerif.Lemmas.UndeltaTie
 /-!
 # C01 — structured round trip is lossless
 
@@ -559,5 +560,23 @@ theorem go_encoder_loop_roundtrip (ref : BDoc) (rows : List Row) (ds : List Int)
         = .ok c ∧ c.ref = ref ∧ c.rows = vals ref :: rows := by
   rw [← PayloadTie.payloadOf_is_go_loop ref (vals ref) rows ds md htab hr hsz]
   exact decode_payload ref rows hw hl hts hrows hnm hn (by omega)
+
+/-- **`undelta` as written in util.go** (`Gen.Util.undelta`, regenerated on every run: the `make`, the `range` loop with its
+in-place prefix sums) **is the model's `undelta`** on the 64-bit patterns (`B x` = the int64 holding `x`; Go's additions wrap and
+reduction modulo 2^64 commutes with them) -/
+theorem go_undelta_is_model (v : Int) (ds : List Int) :
+    (Gen.Util.undelta v ds).map UndeltaTie.B = undelta (UndeltaTie.B v) (ds.map UndeltaTie.B) :=
+  UndeltaTie.undelta_tie v ds
+
+/-- so the decoder's last step, as written in Go, inverts the encoder's deltas: whenever the decoded deltas are the wrapping
+differences of a metric's values, `undelta` returns the starting value followed by exactly those values -/
+theorem go_undelta_inverts_deltas (v : Int) (ds : List Int) (xs : List I64)
+    (h : ds.map UndeltaTie.B = deltas (UndeltaTie.B v) xs) :
+    (Gen.Util.undelta v ds).map UndeltaTie.B = UndeltaTie.B v :: xs := by
+  rw [go_undelta_is_model, h, undelta_deltas]
+
+/-- a run of the generated definition, with a wrap: 2^63 - 1 plus 1 is -2^63 as an int64 -/
+example : (Gen.Util.undelta 5 [1, 0, -7]) = [5, 6, 6, -1] := by decide
+example : UndeltaTie.B (9223372036854775807 + 1) = UndeltaTie.B (-9223372036854775808) := by decide
 
 end Ftdc.Props.C01
